@@ -5,6 +5,7 @@ import numpy as np
 
 from .. import gen, probe
 from ..drive import call, refused_then_used
+from ..dense import dense
 from ..shard import Workload
 from ._common import arm_tt
 from . import ambient
@@ -156,6 +157,49 @@ def w_pinv(ctx, rng, idx):
     call('TT.pinv', u.pinv, i2, prop=P, tags=['after_overwriting_call'], threshold=1e-10, overwrite=True)
 
 
+def w_exact_graded(ctx, rng, idx):
+    """exactly representable, strongly graded data: the diagonal tensor sum_a s_a e_a (x) ... (x) e_a with s = (1, 2^-a, 2^-b), a in 10..30,
+    b in 52..70.  Every unfolding has exactly these singular values - accurately represented although their ratio is below machine
+    epsilon - and the pseudoinverse for threshold 0 is sum_a (1/s_a) e_a (x) ... (x) e_a exactly.  (The general contract declares ratios
+    below 1e-8 undecidable because for generic data they are rounding noise; here the reference is known in closed form.)"""
+    d = int(rng.integers(2, 5))
+    r = int(rng.integers(2, 4))
+    n = [int(rng.integers(r, 5)) for _ in range(d)]
+    sv = [1.0, 2.0 ** -int(rng.integers(10, 31)), 2.0 ** -int(rng.integers(52, 71))][:r]
+    if rng.random() < 0.5:
+        sv = [x * 2.0 ** int(rng.integers(-20, 21)) for x in sv]
+    perm = [rng.permutation(n[i])[:r] for i in range(d)]
+    cores = []
+    for i in range(d):
+        r1, r2 = (1 if i == 0 else r), (1 if i == d - 1 else r)
+        c = np.zeros((r1, n[i], 1, r2))
+        for a in range(r):
+            c[0 if i == 0 else a, int(perm[i][a]), 0, 0 if i == d - 1 else a] = sv[a] if i == 0 else 1.0
+        cores.append(c)
+    cplx = rng.random() < 0.3
+    if cplx:
+        cores = [c * (1j if k == 0 else 1.0) for k, c in enumerate(cores)]
+    t = tt.TT(cores)
+    index = int(rng.integers(1, d))
+    ctx.describe({'op': 'pinv / svd on an exactly graded diagonal tensor', 'dims': n, 'rank': r, 'singular_values': sv, 'index': index, 'complex': cplx})
+    ok, p_ = call('TT.pinv', t.pinv, index, prop=P, tags=['exactly_graded'])
+    if ok:
+        with probe.oracle():
+            want = np.zeros(n, dtype=complex)
+            for a in range(r):
+                want[tuple(int(perm[i][a]) for i in range(d))] = 1.0 / sv[a] * (1j if cplx else 1.0)  # conj-transpose of pinv: (1/conj(s))^* ...
+            got = dense(p_).reshape(n) if list(p_.row_dims) == n else None
+            # the pseudoinverse of s * (i) e f^T is (1/s) * (-i) f e^T; the library returns its conjugate transpose: (1/s) * (i) e f^T
+            good = got is not None and bool(np.allclose(got, want, rtol=1e-9, atol=1e-9 * min(1.0 / x for x in sv)))
+        ctx.check('TT.pinv', 'exactly_graded_spectrum_inverted_exactly', good, ['index=%s' % ('first' if index == 1 else 'last' if index == d - 1 else 'inner')],
+                  {'singular_values': sv, 'dims': n, 'index': index, 'max_abs_got': None if got is None else float(np.max(np.abs(got)))} if not good else None, prop=P)
+    ok, r_ = call('TT.svd', t.svd, index, prop=P, tags=['exactly_graded'])
+    if ok:
+        s_got = np.sort(np.asarray(r_[1], dtype=float))[::-1]
+        good = len(s_got) == r and bool(np.allclose(s_got, np.sort(np.array(sv))[::-1], rtol=1e-12, atol=0.0))
+        ctx.check('TT.svd', 'exactly_graded_singular_values', good, [], {'got': s_got, 'want': sv} if not good else None, prop=P)
+
+
 def w_flags(ctx, rng, idx):
     """svd / pinv with one or both orthonormalisation sweeps switched off, on input that is in exactly the gauge the omitted
     sweep would have produced - and not in the other one, so that the remaining sweep has real work to do"""
@@ -184,6 +228,7 @@ def w_flags(ctx, rng, idx):
 
 WORKLOADS = [
     Workload('svd', w_svd, 300, 6000),
+    Workload('exact_graded', w_exact_graded, 80, 1500),
     Workload('pinv', w_pinv, 300, 6000),
     Workload('flags', w_flags, 200, 4000),
     ambient.WORKLOAD,
